@@ -20,6 +20,16 @@ from harness import core
 from harness import lib_front as lf
 
 
+def same_value(w, r) -> bool:
+    """Expected vs. runtime value: tensors (shape and contents), sequences (lists), absent optionals (None)."""
+    if w is None or r is None:
+        return w is None and r is None
+    if isinstance(w, list) or isinstance(r, list):
+        return isinstance(w, list) and isinstance(r, list) and len(w) == len(r) and all(same_value(a, b) for a, b in zip(w, r))
+    return np.shape(r) == np.shape(w) and bool(np.allclose(
+        np.asarray(w, dtype=np.float64), np.asarray(r, dtype=np.float64), rtol=1e-5, atol=1e-6))
+
+
 # ----------------------------------------------------------------------------- oracle (no Lean model involved)
 def judge(prog, req, got_kind, got, values=None):
     """Compare an observation with what the property prescribes. Returns [(key, what)].
@@ -59,9 +69,7 @@ def judge(prog, req, got_kind, got, values=None):
     if values is not None and not bad:
         want, res = values
         for (name, _), w, r in zip(eout, want, res):
-            if np.shape(r) != np.shape(w) or not np.allclose(
-                np.asarray(w, dtype=np.float64), np.asarray(r, dtype=np.float64), rtol=1e-5, atol=1e-6
-            ):
+            if not same_value(w, r):
                 bad.append((f"{d}:outputs:value", f"output {name} evaluates to {r!r}, the requested Var to {w!r}"))
                 break
     return bad
